@@ -22,6 +22,8 @@ type concCase struct {
 	// Cold: this many goroutines validate each project at the same moment BEFORE it was ever processed
 	// in this process (first contact with its files happens concurrently)
 	Cold int `json:"cold"`
+	// SharedBan: one WithBannedDirectives option VALUE built from these kinds is given to every case that asks for it
+	SharedBan []string `json:"shared_ban"`
 }
 
 type concObs struct {
@@ -39,6 +41,13 @@ func cmdConc(line []byte, emit func(interface{})) {
 		return
 	}
 	emit(map[string]string{"begin": c.ID})
+	sharedOption = nil
+	if len(c.SharedBan) > 0 {
+		if so, err := bannedOpts(c.SharedBan); err == nil {
+			sharedOption = so[0]
+		}
+	}
+	defer func() { sharedOption = nil }()
 	o := &concObs{ID: c.ID, Diffs: []string{}, Solo: []string{}, Panics: []string{}}
 	tops := make([]string, len(c.Cases))
 	defer func() {
